@@ -712,8 +712,22 @@ class Body:
                     edges.append((t["otherwise"], not bool(vals[0])))
                 out.append((pos[0], ct, edges))
             else:
-                out.append((pos[0], ct, [(b, v) for v, b in t["targets"]] + [(t["otherwise"], None)]))
+                edges = [(b, v) for v, b in t["targets"]]
+                other = None
+                # `match` on a two-variant enum with one listed arm: the otherwise edge IS the other variant
+                if len(edges) == 1 and edges[0][1] in (0, 1) and self._nvariants_of_switch(t, pos) == 2:
+                    other = 1 - edges[0][1]
+                out.append((pos[0], ct, edges + [(t["otherwise"], other)]))
         return out
+
+    def _nvariants_of_switch(self, t, pos):
+        d = t["discr"]
+        if d.get("k") not in ("move", "copy") or "p" in d["pl"]:
+            return None
+        ds = self.defs(d["pl"]["l"])
+        if len(ds) == 1 and ds[0][1] == "rv" and ds[0][2].get("k") == "discr":
+            return ds[0][2].get("nvariants")
+        return None
 
 
 # ----------------------------------------------------------------------------- program
